@@ -575,6 +575,12 @@ func (r *Runner) heal() {
 	c.mu.Unlock()
 	c.net.SetAuto(true)
 	c.SetControlled(false)
+	for _, id := range sc.HealKeepDown {
+		// "the others stay down for good": a member that is to stay down and still runs goes down now
+		if n := c.node(id); n != nil && n.running {
+			r.Do(Stim{Op: "crash", N: id})
+		}
+	}
 	for _, id := range ids {
 		if n := c.node(id); !n.running && !contains(sc.HealKeepDown, id) {
 			c.Restart(id)
@@ -681,6 +687,12 @@ func (r *Runner) Run() {
 	c, sc := r.c, r.sc
 	c.timed = sc.TickMS > 0
 	r.setup()
+	if c.timed {
+		// RaftTimed.tla's replay configurations start from an idle cluster (InitAge = E, every
+		// election ticker expired): two election timeouts pass before the first step
+		c.Advance(2 * c.ET)
+		c.Settle()
+	}
 	for _, s := range sc.Stimuli {
 		r.Do(s)
 	}
